@@ -9,6 +9,15 @@ def run(ctx):
     if not ctx.thorough:
         cases = ctx.rng.sample(cases, min(len(cases), 150))
     gillcheck.law_check(ctx, drv, True, cases, "Gillespie_SIS")
+    # law after 2 and 3 events (exact enumeration of the real code vs the composed chain): reaches what only shows
+    # after the event lists have been updated (removal of the heaviest item, re-insertion of existing links, ...)
+    gillcheck.k_step_check(ctx, drv, True, gillcheck.kstep_cases(ctx, True, ctx.scale(25, 150)), 2, "Gillespie_SIS")
+    gillcheck.k_step_check(ctx, drv, True, gillcheck.kstep_cases(ctx, True, ctx.scale(10, 60)), 3, "Gillespie_SIS")
+    if any(st.startswith("Gillespie_SIS") for st, _ in ctx.disagreements) and not ctx.violations:
+        # tape correspondence broke without a property-level failure so far: search harder for a concrete failing input
+        gillcheck.k_step_check(ctx, drv, True, gillcheck.kstep_cases(ctx, True, 150), 2, "Gillespie_SIS")
+        if not ctx.violations:
+            gillcheck.k_step_check(ctx, drv, True, gillcheck.kstep_cases(ctx, True, 100), 3, "Gillespie_SIS")
     fastsis.correspondence(ctx, drv, ctx.scale(600, 3000))
     if any(st.startswith("fast_SIS") for st, _ in ctx.disagreements) and not ctx.violations:
         # correspondence broke without a property-level failure so far: search for a concrete failing input
